@@ -150,7 +150,7 @@ func c20Validation(c *Ctx) {
 	// route
 	mainFn := c.Fn("cmd/rdpgw", "main")
 	routeOK := false
-	eachInstr(mainFn, func(in ssa.Instruction) {
+	c.eachMainInstr(func(in ssa.Instruction) {
 		mc, ok := in.(*ssa.MakeClosure)
 		if !ok || !strings.HasPrefix(mc.Fn.(*ssa.Function).Name(), "Handler$bound") {
 			return
